@@ -433,6 +433,19 @@ def run(ctx):
             continue
         jobs.append((5100 + k, 0, req, {"transport": ["grpc+rest", "grpc"][k], "params": ["metadata"] if k else [], "yaml": None, "ads": False}, [], ["Vault", "Admin"],
                      ["sub-package-below-an-empty-intermediate-level"]))
+    # a service that declares no default host, in both template trees
+    for k, ads in enumerate((False, True)):
+        nh = File("google/example/nohost/v1/nohost.proto", "google.example.nohost.v1", deps=list(apigen.STD_DEPS))
+        nq = nh.message("PingRequest"); nq.field("name", 1, "string")
+        nr = nh.message("Pong"); nr.field("name", 1, "string")
+        ns = nh.service("Pinger", host=None)
+        ns.rpc("Ping", nq.fqn, nr.fqn, http=("get", "/v1/{name=pings/*}"), sigs=["name"])
+        try:
+            req = apigen.request([nh])
+        except apigen.Invalid:
+            ctx.features["invalid-candidate"] += 1
+            continue
+        jobs.append((5200 + k, 0, req, {"transport": "grpc", "params": [], "yaml": None, "ads": ads}, [], ["Pinger"], ["service-without-default-host"]))
     # a dependency package that shares a textual prefix with the API package (foo.v1beta1 used by foo.v1); the library is
     # given its own namespace so that the dependency's pb2 package does not sit inside the emitted unversioned package
     for k, (tpkg, dpkg) in enumerate([("google.example.v1", "google.example.v1beta1"), ("acme.things.v2", "acme.things.v2alpha")]):
